@@ -167,7 +167,7 @@ func (h *c08hist) modelOp(in ref.Instr) *c08node {
 	}
 	n := &c08node{in: in, val: v}
 	switch {
-	case in.Op == "leaf" || in.Op == "full":
+	case in.Op == "leaf" || in.Op == "full" || in.Op == "eye":
 		n.leaf, n.tracked = true, in.Tracked
 	case !ref.Differentiable[in.Op]: // comparison: fresh untracked
 		n.cmpOfSpent = anySpent
@@ -347,9 +347,9 @@ func (h *c08hist) doOp(in ref.Instr) bool {
 		return false
 	}
 	class := "op"
-	if !ref.Differentiable[in.Op] && in.Op != "leaf" && in.Op != "full" {
+	if !ref.Differentiable[in.Op] && in.Op != "leaf" && in.Op != "full" && in.Op != "eye" {
 		class = "cmp"
-	} else if in.Op == "leaf" || in.Op == "full" {
+	} else if in.Op == "leaf" || in.Op == "full" || in.Op == "eye" {
 		class = "leaf"
 	}
 	h.trans[fmt.Sprintf("%v --%s--> %s", before, class, n.state())] = true
@@ -623,6 +623,15 @@ func (h *c08hist) genOp() (ref.Instr, bool) {
 	us := h.usable()
 	if len(us) == 0 || r.Intn(7) == 0 {
 		shape := c08Shapes[r.Intn(len(c08Shapes))]
+		if q := r.Intn(8); q == 0 {
+			// the constructors of constants, over and over with the same few arguments: every call returns a tensor of its own with
+			// exactly the requested tracking, whatever happened to earlier tensors built from the same arguments
+			h.k.Count("constant_constructor_steps", 1)
+			if r.Intn(2) == 0 {
+				return ref.Instr{Op: "eye", Dim: 1 + r.Intn(3), Tracked: r.Intn(3) == 0}, true
+			}
+			return ref.Instr{Op: "full", Shape: c08Shapes[r.Intn(3)], F: []float64{0, 1, 0.5}[r.Intn(3)], Tracked: r.Intn(3) == 0}, true
+		}
 		t := Shuffled(r, Unique(r, shape, 0.2, 1.5))
 		return ref.Instr{Op: "leaf", Shape: shape, Data: t.Data, Tracked: r.Intn(3) > 0}, true
 	}
